@@ -39,8 +39,39 @@ def is_args(e, body_root, args_param):
     return e == ("arg", args_param) or (e[0] == "carg" and False)
 
 
+def _norm_payload(e, depth=0):
+    """`args.split_last().ok_or_else(..)?` hands on the payload of `split_last()`: the success payload of `x.ok_or(..)`,
+    `x.ok_or_else(..)`, `x?`, `x.unwrap()`, `x.expect(..)` is rewritten to the `Some` payload of x, so that the readers below
+    meet `(split_last(V) as Some).0` however the absence of a last operand is turned into an error."""
+    if not isinstance(e, tuple) or depth > 40:
+        return e
+    if e[0] == "field" and e[2] == 0 and isinstance(e[1], tuple) and e[1][0] == "downcast" and e[1][2] in ("Some", "Ok", "Continue"):
+        src = strip_refs(e[1][1])
+        changed = False
+        for _ in range(6):
+            if src[0] == "call" and src[1] and src[2] and (src[1].get("path", "").endswith("as std::ops::Try>::branch") or re.search(r"^std::option::Option::<T>::(ok_or|ok_or_else)$", src[1].get("path", ""))):
+                src, changed = strip_refs(src[2][0]), True
+            else:
+                break
+        if changed:
+            return ("field", ("downcast", _norm_payload(src, depth + 1), "Some"), 0)
+    if e[0] == "call" and e[1] and e[2] and re.search(r"^std::option::Option::<T>::(unwrap|expect)$", e[1].get("path", "")):
+        return ("field", ("downcast", _norm_payload(strip_refs(e[2][0]), depth + 1), "Some"), 0)
+    out = []
+    for x in e:
+        if isinstance(x, tuple):
+            out.append(_norm_payload(x, depth + 1))
+        elif isinstance(x, list):
+            out.append([_norm_payload(y, depth + 1) if isinstance(y, tuple) else y for y in x])
+        else:
+            out.append(x)
+    return tuple(out)
+
+
 def view_of(e, args_param, depth=0):
     """View term of a slice/iterator-valued expression over the operand list, or ("unknown", text)."""
+    if depth == 0:
+        e = _norm_payload(e)
     e = strip_refs(e)
     if depth > 12:
         return ("unknown", "deep")
@@ -112,6 +143,8 @@ class Descriptor:
 
 def describe(body, e, args_param, depth=0):
     """Descriptor of the operand reference expression e (x-traced in `body`)."""
+    if depth == 0:
+        e = _norm_payload(e)
     e = strip_refs(e)
     if depth > 10:
         return Descriptor("unknown", None, text="deep")
